@@ -28,6 +28,58 @@ theorem pathsList_append (kind : Kind) (xs ys : List (SNode M P)) :
   | nil => simp [pathsList]
   | cons x xs ih => simp [pathsList, ih]
 
+/-! ### `paths` enumerates exactly the `Reach` relation -/
+
+mutual
+  theorem reach_of_mem_paths (kind : Kind) : ∀ (n : SNode M P) (ms : List M) (p : P),
+      (ms, p) ∈ paths kind n → Reach kind n ms p
+    | .node m cs, ms, p, h => by
+        simp only [paths, List.mem_map] at h
+        obtain ⟨⟨ms', p'⟩, hmem, heq⟩ := h
+        simp only [Prod.mk.injEq] at heq
+        obtain ⟨rfl, rfl⟩ := heq
+        obtain ⟨c, hc, hr⟩ := reach_of_mem_pathsList kind cs ms' p' hmem
+        exact Reach.node hc hr
+    | .inst k q, ms, p, h => by
+        by_cases hk : k = kind
+        · subst hk
+          simp [paths] at h
+          obtain ⟨rfl, rfl⟩ := h
+          exact Reach.inst _
+        · simp [paths, hk] at h
+    | .ref t, ms, p, h => by
+        simp only [paths] at h
+        exact Reach.ref (reach_of_mem_paths kind t ms p h)
+  theorem reach_of_mem_pathsList (kind : Kind) : ∀ (cs : List (SNode M P)) (ms : List M) (p : P),
+      (ms, p) ∈ pathsList kind cs → ∃ c, c ∈ cs ∧ Reach kind c ms p
+    | [], ms, p, h => by simp [pathsList] at h
+    | c :: cs, ms, p, h => by
+        simp only [pathsList, List.mem_append] at h
+        rcases h with h | h
+        · exact ⟨c, List.mem_cons_self .., reach_of_mem_paths kind c ms p h⟩
+        · obtain ⟨c', hc', hr⟩ := reach_of_mem_pathsList kind cs ms p h
+          exact ⟨c', List.mem_cons_of_mem _ hc', hr⟩
+end
+
+theorem mem_pathsList_of_mem (kind : Kind) (cs : List (SNode M P)) (c : SNode M P) (x : List M × P)
+    (hc : c ∈ cs) (hx : x ∈ paths kind c) : x ∈ pathsList kind cs := by
+  induction cs with
+  | nil => cases hc
+  | cons d ds ih =>
+    simp only [pathsList, List.mem_append]
+    rcases List.mem_cons.mp hc with rfl | h
+    · exact Or.inl hx
+    · exact Or.inr (ih h)
+
+theorem mem_paths_of_reach (kind : Kind) (n : SNode M P) (ms : List M) (p : P)
+    (h : Reach kind n ms p) : (ms, p) ∈ paths kind n := by
+  induction h with
+  | inst p => simp [paths]
+  | ref _ ih => simpa [paths] using ih
+  | node hc _ ih =>
+    simp only [paths, List.mem_map]
+    exact ⟨_, mem_pathsList_of_mem kind _ _ _ hc ih, rfl⟩
+
 /-! ### traversal = paths -/
 
 section traversal
